@@ -228,6 +228,12 @@ def _act(r, i, e, occ):
             sys.stdout = r.orig_stdout = StreamWrapper(sys.stdout)
             sys.stderr = r.orig_stderr = StreamWrapper(sys.stderr)
         return
+    if a == 'argv_append':
+        # a test that changes sys.argv in place (code under test with a main(), an option parser
+        # that pops its arguments) and does not put it back
+        r.emit([r.simpid, 'fault', 'argv_append', i, 0])
+        sys.argv += list(e.get('args') or [])
+        return
     if a == 'chdir':
         # a test (or a test module at import) that changes the working directory for good
         r.emit([r.simpid, 'fault', 'chdir', i, 0])
